@@ -188,6 +188,7 @@ pub fn family_a(max_lines: usize) -> Vec<Inp> {
 pub const RECORDS: &[&str] = &[
     "MODULE Linux x86_64 ABCD1234ABCD1234ABCDABCD12345678a test",
     "INFO CODE_ID 1234",
+    "INFO URL https://symbols.example.org/test/ABCD/test.sym",
     "FILE 0 a.c",
     "INLINE_ORIGIN 0 inl",
     "FUNC 1000 20 0 main",
@@ -228,7 +229,7 @@ pub fn family_gappy() -> Vec<Inp> {
     }
     v
 }
-pub const SHORT_RECORDS: &[&str] = &["MODULE a b c d", "FUNC 10 8 0 f", "10 8 1 0", "STACK CFI INIT 10 8 .cfa: $sp .ra: .cfa ^", "STACK CFI 14 .cfa: $sp 4 +", "PUBLIC 40 0 p"];
+pub const SHORT_RECORDS: &[&str] = &["MODULE a b c d", "INFO x", "INFO URL u", "FUNC 10 8 0 f", "10 8 1 0", "STACK CFI INIT 10 8 .cfa: $sp .ra: .cfa ^", "STACK CFI 14 .cfa: $sp 4 +", "PUBLIC 40 0 p"];
 pub fn family_b(records: &[&str], tag: &str) -> Vec<Inp> {
     let mut v = vec![];
     for eol in ["\n", "\r\n"] {
